@@ -99,6 +99,14 @@ class S5(Controller):
         pass
 
 
+class S6(S5):
+    """subclass of a @service class with a WIDER constructor: its own signature counts, not the decorated base's"""
+
+    def __init__(self, target, a, b=0, c=0, *, k=None, zz=1):
+        super().__init__(target, a, b, k=k)
+        LOG[-1] = (self, target, (a, b, c), {"k": k, "zz": zz})
+
+
 class D0(PoolDecorator):
     def __init__(self, target):
         super().__init__(target)
@@ -125,6 +133,14 @@ class D5(PoolDecorator):
 
     async def run(self):
         pass
+
+
+class D6(D5):
+    """subclass of a @service class with a NARROWER constructor"""
+
+    def __init__(self, target, a):
+        super().__init__(target, a)
+        LOG[-1] = (self, target, (a,), {})
 
 
 class FalsyPool(RecPool):
@@ -164,7 +180,9 @@ SIGS = {
     "S3": (S3, dict(pos=[], required=[], kwonly=[], req_kw=[], varargs=True, varkw=False)),
     "S4": (S4, dict(pos=["a"], required=[], kwonly=[], req_kw=[], varargs=False, varkw=True)),
     "S5": (S5, dict(pos=["a", "b"], required=["a"], kwonly=["k"], req_kw=[], varargs=False, varkw=False)),
+    "S6": (S6, dict(pos=["a", "b", "c"], required=["a"], kwonly=["k", "zz"], req_kw=[], varargs=False, varkw=False)),
     "D0": (D0, dict(pos=[], required=[], kwonly=[], req_kw=[], varargs=False, varkw=False)),
+    "D6": (D6, dict(pos=["a"], required=["a"], kwonly=[], req_kw=[], varargs=False, varkw=False)),
     "D2": (D2, dict(pos=["a"], required=["a"], kwonly=["k", "zz"], req_kw=["k"], varargs=False, varkw=False)),
     "D4": (D4, dict(pos=["a"], required=[], kwonly=[], req_kw=[], varargs=False, varkw=True)),
     "D5": (D5, dict(pos=["a", "b"], required=["a"], kwonly=["k"], req_kw=[], varargs=False, varkw=False)),
@@ -302,7 +320,9 @@ VALID = {  # per signature: two valid, complete argument profiles (positionals, 
     "S3": [(0, ()), (2, ())],
     "S4": [(0, ()), (1, ("q", "zz"))],
     "S5": [(1, ()), (2, ("k",))],
+    "S6": [(3, ()), (1, ("zz",))],
     "D0": [(0, ()), (0, ())],
+    "D6": [(1, ()), (0, ("a",))],
     "D2": [(1, ("k",)), (0, ("a", "k", "zz"))],
     "D4": [(0, ()), (1, ("q", "zz"))],
     "D5": [(1, ()), (2, ("k",))],
